@@ -145,7 +145,7 @@ impl Session {
         // check and verify a potential ENR update
 
         // Duplicate code here to avoid cloning an ENR
-        let remote_public_key = {
+        let (remote_public_key, enr_matches_remote_id) = {
             let enr = match (enr_record.as_ref(), challenge.remote_enr.as_ref()) {
                 (Some(new_enr), Some(known_enr)) => {
                     if new_enr.seq() > known_enr.seq() {
@@ -164,8 +164,15 @@ impl Session {
                     return Err(Error::SessionNotEstablished);
                 }
             };
-            enr.public_key()
+            (enr.public_key(), &enr.node_id() == remote_id)
         };
+
+        // The record whose key verifies the handshake must be the record of the node the packet
+        // claims to come from. Otherwise a signature made with any other key would be accepted
+        // as proof of being `remote_id`.
+        if !enr_matches_remote_id {
+            return Err(Error::InvalidChallengeSignature(Box::new(challenge)));
+        }
 
         // verify the auth header nonce
         if !crypto::verify_authentication_nonce(
